@@ -286,6 +286,15 @@ func (w *World) RunPhase(clients []Client) bool {
 			}
 		}
 		w.mu.Unlock()
+		if l := w.last; l != nil && l.state == gRunning {
+			// the goroutine released last is blocked inside the library
+			switch l.last {
+			case "W.enqueue", "R.reader.enqueue":
+				w.probes.Add("queue.full.at.enqueue", 1)
+			case "W.close.enqueue", "R.reader.endenqueue":
+				w.probes.Add("sentinel.behind.pending", 1)
+			}
+		}
 		if len(parked) == 0 {
 			alldone := true
 			for _, cs := range mine {
